@@ -61,6 +61,9 @@ type Result struct {
 }
 
 func main() {
+	for _, f := range registerLate {
+		f()
+	}
 	if len(os.Args) > 1 && os.Args[1] == "hookgen" {
 		hookgenMain(os.Args[2:])
 		return
